@@ -40,6 +40,7 @@ func runC20(c *Ctx) {
 	c20R7(c)
 	c20R8(c)
 	c20R9(c)
+	c20R10(c)
 }
 
 // c20R9: the constructors never lose what they were given.
@@ -1073,5 +1074,48 @@ func c20R6(c *Ctx) {
 		grpc := c.Fn(r, pConduiterr, "(Code).GRPCCode")
 		reason := c.Fn(r, pConduiterr, "(Code).Reason")
 		c.R.Check(len(kit.CallsTo(fn, Set(grpc))) > 0 && len(kit.CallsTo(fn, Set(reason))) > 0, r, "ToStatus sends Code.GRPCCode() and Code.Reason()", c.Pos(fn.Pos()), "ok", "ToStatus no longer sends the code's own category/reason", true)
+	}
+}
+
+// c20R10: F58. What a client observes (gRPC category, ErrorInfo detail, exit code) must not depend on which handler an
+// error left through: a management API handler never returns a bare sentinel (a package-level error variable such as
+// cerrors.ErrEmptyID) — the transport reports that as codes.Unknown / exit 1 while its sibling handlers, which pass the
+// same sentinel through pkg/http/api/status, report InvalidArgument / exit 2.
+func c20R10(c *Ctx) {
+	r := c.R.Rule("R10", "K1 no bare sentinel leaves the API: no exported method of a *APIv1 handler type in pkg/http/api returns a package-level error variable directly (it goes through a pkg/http/api/status mapper)", 25)
+	const pAPI = "pkg/http/api"
+	p := c.W.Pkg(pAPI)
+	if p == nil {
+		c.R.Unresolved(r, pAPI)
+		return
+	}
+	exempt := map[string]string{
+		"ImportPipeline": "unimplemented endpoint returning cerrors.ErrNotImpl (same shape, not demonstrated through a client; not armed)",
+		"ExportPipeline": "unimplemented endpoint returning cerrors.ErrNotImpl (same shape, not demonstrated through a client; not armed)",
+	}
+	for _, fn := range c.W.AllFuncs(c.W.SSA[p.Types]) {
+		if fn.Parent() != nil || fn.Signature.Recv() == nil || kit.ErrIndex(fn) < 0 {
+			continue
+		}
+		n, ok := derefNamed(fn.Signature.Recv().Type())
+		if !ok || !strings.HasSuffix(n.Obj().Name(), "APIv1") || !fn.Object().Exported() {
+			continue
+		}
+		if _, ex := exempt[fn.Name()]; ex {
+			continue
+		}
+		ei := kit.ErrIndex(fn)
+		bare := false
+		var at token.Pos = fn.Pos()
+		for _, ret := range kit.Returns(fn) {
+			v := kit.Unwrap(kit.RetVal(ret, ei))
+			if u, isU := v.(*ssa.UnOp); isU {
+				if _, isG := u.X.(*ssa.Global); isG {
+					bare = true
+					at = posOf(ret)
+				}
+			}
+		}
+		c.R.Check(!bare, r, kit.FuncKey(fn)+": no bare sentinel is returned", c.Pos(at), "through a status mapper", "the handler returns a package-level sentinel error directly instead of through pkg/http/api/status: the transport reports it as codes.Unknown without ErrorInfo detail (exit code 1) while sibling handlers report the same sentinel with its registered category (InvalidArgument, exit code 2) — what a client observes depends on the handler", true)
 	}
 }
